@@ -287,7 +287,8 @@ def items_for(prop, tier):
     if p in ('C17', 'C18'): return conc_items([p], tier) + cconc_items([p], tier)
     if p == 'C13':
         return inv_items([p], tier) + [x for x in conc_items(['C13'], tier, want=lambda pn, it: pn in ('call|inv_with', 'fill|inv_with', 'call|inv_all_with'))
-                                       if x['subject'] in ('g_lru_l2', 'a_lru_l2', 'g_fifo_l2', 'a_fifo_l2', 'a_arc_l2', 'g_tag1', 'a_tag1_ev1') or tier == 'thorough']
+                                       if len(x['progs']) == 2 and (x['subject'] in ('g_lru_l2', 'a_lru_l2', 'g_fifo_l2', 'a_fifo_l2', 'a_arc_l2', 'g_tag1', 'a_tag1_ev1')
+                                                                    or (tier == 'thorough' and x['subject'] in ('g_lfu_l2', 'a_lfu_l2', 'g_mem1kb', 'a_mem1kb', 'g_ttl1', 'a_ttl1')))]
     if p in ('C12', 'C13'): return inv_items([p], tier)
     if p == 'C14': return wrap_items(['C14'], tier, pred=lambda r: r['group'] in ('cfg', 'plain', 'sig', 'method', 'meta', 'mem'), patterns=('same', 'other-thread')) + part_items(['C14'], tier) + conc_items(['C14'], tier, want=lambda pn, it: pn in ('same|same', 'fill|new'))
     if p == 'C19': return wrap_items(['C19'], tier)
